@@ -379,7 +379,9 @@ class LargestRemainder:
             for cand, n_votes in votes.items()
             if gained_prerem.get(cand, 0) < max_seats.get(cand, INF)
         }
-        best = votelib.evaluate.core.get_n_best(remainders, n_for_remainder)
+        best = votelib.evaluate.core.get_n_best(
+            remainders, max(n_for_remainder, 0)
+        )
         for candidate in best:
             if candidate in quota_elected:
                 quota_elected[candidate] += 1
